@@ -96,9 +96,7 @@ func SetFinalResult(queryOp *structs.QueryArithmetic, finalResult map[string]map
 	case sutils.LetAdd:
 		finalResult[groupID][timestamp] = valueLHS + valueRHS
 	case sutils.LetDivide:
-		if valueRHS == 0 {
-			return
-		}
+		// x / 0 is +Inf, -Inf or NaN, as in PromQL; the sample is not dropped
 		finalResult[groupID][timestamp] = valueLHS / valueRHS
 	case sutils.LetMultiply:
 		finalResult[groupID][timestamp] = valueLHS * valueRHS
